@@ -60,6 +60,7 @@ type w7Op struct {
 
 type w7Ops struct {
 	Gamepad    []bool   `json:"gamepad"` // per device: joystick (gamepad directories) or keyboard
+	Mouse      []bool   `json:"mouse,omitempty"` // per device: not a playable device (mouse): never gets a configuration
 	Files      []w7File `json:"files"`
 	Ops        []w7Op   `json:"ops"`
 	AnnounceMs int      `json:"announce_ms"` // discovery takes this long to announce a device
@@ -87,6 +88,7 @@ func genW7(r *simrt.Rng) *w7Ops {
 	nd := r.Range(1, 3)
 	for i := 0; i < nd; i++ {
 		o.Gamepad = append(o.Gamepad, r.Chance(0.3))
+		o.Mouse = append(o.Mouse, nd > 1 && r.Chance(0.12))
 	}
 	if r.Chance(0.2) {
 		o.OpenFails = r.Range(1, 4)
@@ -256,6 +258,9 @@ func runW7(t *testing.T, job *worlds.Job, seed uint64, rp *worlds.Replay) worlds
 		if ops.Gamepad[i] {
 			typ = input.JoystickDevice
 		}
+		if i < len(ops.Mouse) && ops.Mouse[i] {
+			typ = input.MouseDevice
+		}
 		ev := fmt.Sprintf("event%d", 40+i)
 		di := input.NewDeviceInfoForSim(fmt.Sprintf("Sim Device %d", i), fmt.Sprintf("usb-sim-%d/input0", i), ev, id, nil)
 		devs = append(devs, input.Device{ID: id, Name: fmt.Sprintf("Sim Device %d", i), Phys: fmt.Sprintf("usb-sim-%d", i), DeviceType: typ,
@@ -264,6 +269,9 @@ func runW7(t *testing.T, job *worlds.Job, seed uint64, rp *worlds.Replay) worlds
 	// expected: the file the precedence order selects for device i among those that parse
 	expected := func(i int) int {
 		best, bestRank := -1, 99
+		if i < len(ops.Mouse) && ops.Mouse[i] {
+			return -1 // unsupported device type: skipped with an error
+		}
 		for fi, f := range files {
 			if brokenNow[fi] || (f.Dev >= 0 && f.Dev != i) {
 				continue
@@ -778,6 +786,11 @@ func runW7(t *testing.T, job *worlds.Job, seed uint64, rp *worlds.Replay) worlds
 	}
 	if ops.SlowOutUs > 0 {
 		ro.Faults["slow_midi_consumer"]++
+	}
+	for _, m := range ops.Mouse {
+		if m {
+			ro.Faults["unsupported_device_connected"]++
+		}
 	}
 	ro.Probes["discovery_cycles"] += cycles
 	ro.Probes["device_opens"] += opens
